@@ -78,6 +78,7 @@ type Result struct {
 	Assumes      int64
 	Asserts      int64
 	AssertsProved int64
+	DomainDecided int64
 	Summarized   map[string]int
 	Observations [][]Observation
 	Wall         time.Duration
@@ -215,15 +216,24 @@ func (in *Interp) resolveStubs(byName map[string]*ssa.Function) error {
 }
 
 func (in *Interp) resetPath(prefix []Decision, model map[string]uint64) {
-	in.ts = term.NewStore()
+	if in.ts == nil || in.ts.Size() > 400000 {
+		in.ts = term.NewStore()
+		in.sumCache = map[*ssa.Function]*sumEntry{}
+		in.sumInst = map[sumKey]*term.Term{}
+		in.ev = &term.Evaluator{}
+		in.dev = &term.Evaluator{}
+	}
 	in.pc = nil
+	in.pcSet = map[uint32]bool{}
+	in.doms = map[string]*domain{}
+	in.multiVars = map[string]bool{}
 	in.asserted = 0
 	in.solFresh = false
 	in.model = model
 	if in.model == nil {
 		in.model = map[string]uint64{}
 	}
-	in.memo = map[uint32]uint64{}
+	in.ev.NewGen()
 	in.prefix = prefix
 	in.pos = 0
 	in.decisions = nil
@@ -510,12 +520,12 @@ func (in *Interp) findMethod(t types.Type, name string) *ssa.Function {
 // ---------------------------------------------------------------- solver glue
 
 func (in *Interp) eval(t *term.Term) uint64 {
-	return term.Eval(t, in.model, in.memo)
+	return in.ev.Eval(t, in.model, nil, 0)
 }
 
 func (in *Interp) setModel(m map[string]uint64) {
 	in.model = m
-	in.memo = map[uint32]uint64{}
+	in.ev.NewGen()
 }
 
 func (in *Interp) syncSolver() {
@@ -542,7 +552,133 @@ func (in *Interp) addPC(t *term.Term) {
 	if t.IsTrue() {
 		return
 	}
+	if t.Op == term.OpAnd && t.MV {
+		for _, a := range t.Args {
+			in.addPC(a)
+		}
+		return
+	}
 	in.pc = append(in.pc, t)
+	in.pcAdd(t)
+	in.domAdd(t)
+}
+
+// ---- byte domains: a cheap, sound pre-filter for the solver.
+//
+// For every 8-bit variable the engine keeps the set of values not yet excluded
+// by path-condition conjuncts that mention only that variable. A condition over
+// a single such variable is then decided by enumeration: impossible outcomes
+// are pruned without a query, and when the variable occurs in no multi-variable
+// conjunct both outcomes are known feasible (the witness value gives the model).
+
+type domain [4]uint64
+
+func (d *domain) has(v uint64) bool { return d[v>>6]&(1<<(v&63)) != 0 }
+func (d *domain) del(v uint64)      { d[v>>6] &^= 1 << (v & 63) }
+
+func (in *Interp) dom(v *term.Term) *domain {
+	d, ok := in.doms[v.Name]
+	if !ok {
+		d = &domain{^uint64(0), ^uint64(0), ^uint64(0), ^uint64(0)}
+		in.doms[v.Name] = d
+	}
+	return d
+}
+
+func (in *Interp) domAdd(t *term.Term) {
+	if t.MV {
+		seen := map[uint32]bool{}
+		vars := map[string]uint8{}
+		term.Vars(t, seen, vars)
+		for n := range vars {
+			in.multiVars[n] = true
+		}
+		return
+	}
+	v := t.SV
+	if v == nil || v.W != 8 {
+		if v != nil {
+			in.multiVars[v.Name] = true // wide variable: always ask the solver
+		}
+		return
+	}
+	d := in.dom(v)
+	for x := uint64(0); x < 256; x++ {
+		if !d.has(x) {
+			continue
+		}
+		in.dev.NewGen()
+		if in.dev.Eval(t, nil, v, x) == 0 {
+			d.del(x)
+		}
+	}
+}
+
+// domSplit enumerates the domain of c's single 8-bit variable: it returns a
+// witness for c and one for ¬c (or -1), and whether the answer is exact.
+func (in *Interp) domSplit(c *term.Term) (wTrue, wFalse int, exact, ok bool) {
+	v := c.SV
+	if c.MV || v == nil || v.W != 8 {
+		return 0, 0, false, false
+	}
+	d := in.dom(v)
+	wTrue, wFalse = -1, -1
+	for x := uint64(0); x < 256; x++ {
+		if !d.has(x) {
+			continue
+		}
+		in.dev.NewGen()
+		if in.dev.Eval(c, nil, v, x) != 0 {
+			if wTrue < 0 {
+				wTrue = int(x)
+			}
+		} else if wFalse < 0 {
+			wFalse = int(x)
+		}
+		if wTrue >= 0 && wFalse >= 0 {
+			break
+		}
+	}
+	return wTrue, wFalse, !in.multiVars[v.Name], true
+}
+
+func (in *Interp) modelWith(name string, val uint64) map[string]uint64 {
+	m := make(map[string]uint64, len(in.model)+1)
+	for k, v := range in.model {
+		m[k] = v
+	}
+	m[name] = val
+	return m
+}
+
+// pcAdd records the literals a conjunct establishes, so that a later test of
+// the same condition is decided without a solver query.
+func (in *Interp) pcAdd(t *term.Term) {
+	if in.pcSet[t.ID] {
+		return
+	}
+	in.pcSet[t.ID] = true
+	if t.Op == term.OpAnd {
+		for _, a := range t.Args {
+			in.pcAdd(a)
+		}
+	}
+	if t.Op == term.OpNot && t.Args[0].Op == term.OpOr {
+		for _, a := range t.Args[0].Args {
+			in.pcAdd(in.ts.Not(a))
+		}
+	}
+}
+
+// implied reports whether c (1) or its negation (-1) is a recorded literal.
+func (in *Interp) implied(c *term.Term) int {
+	if in.pcSet[c.ID] {
+		return 1
+	}
+	if in.pcSet[in.ts.Not(c).ID] {
+		return -1
+	}
+	return 0
 }
 
 // branch decides a symbolic condition, forking the path when both outcomes
@@ -560,6 +696,9 @@ func (in *Interp) branchD(c *term.Term, hasVal bool, val uint64) bool {
 		return in.summaryBranch(c)
 	}
 	if in.pos < len(in.prefix) {
+		if imp := in.implied(c); imp != 0 {
+			return imp > 0
+		}
 		d := in.prefix[in.pos]
 		in.pos++
 		if d.HasVal != hasVal {
@@ -575,6 +714,11 @@ func (in *Interp) branchD(c *term.Term, hasVal bool, val uint64) bool {
 	}
 	in.pos++
 	taken := in.eval(c) != 0
+	if imp := in.implied(c); imp != 0 {
+		// decided by the path condition: no fork, no query
+		in.pos--
+		return imp > 0
+	}
 	if in.cfg.Concrete == nil {
 		var other *term.Term
 		if taken {
@@ -582,7 +726,30 @@ func (in *Interp) branchD(c *term.Term, hasVal bool, val uint64) bool {
 		} else {
 			other = c
 		}
-		r, m := in.check(other)
+		var r solver.Result
+		var m map[string]uint64
+		if wT, wF, exact, ok := in.domSplit(c); ok {
+			w := wT
+			if taken {
+				w = wF
+			}
+			switch {
+			case w < 0:
+				r = solver.Unsat
+				in.ex.mu.Lock()
+				in.ex.res.DomainDecided++
+				in.ex.mu.Unlock()
+			case exact:
+				r, m = solver.Sat, in.modelWith(c.SV.Name, uint64(w))
+				in.ex.mu.Lock()
+				in.ex.res.DomainDecided++
+				in.ex.mu.Unlock()
+			default:
+				r, m = in.check(other)
+			}
+		} else {
+			r, m = in.check(other)
+		}
 		switch r {
 		case solver.Sat:
 			alt := make([]Decision, len(in.decisions)+1)
@@ -609,6 +776,9 @@ func (in *Interp) concretize(t *term.Term) uint64 {
 	}
 	if in.summaryDepth > 0 {
 		panic(engineError{"summary: concretization inside summarized function"})
+	}
+	if vm := in.eval(t); in.implied(in.ts.Eq(t, in.ts.Const(t.W, vm))) == 1 {
+		return vm
 	}
 	for n := 0; ; n++ {
 		var v uint64
@@ -640,6 +810,16 @@ func (in *Interp) assume(c *term.Term) {
 	}
 	if in.cfg.Concrete != nil {
 		panic(pathEnd{"assume false (concrete)"})
+	}
+	if wT, _, exact, ok := in.domSplit(c); ok {
+		if wT < 0 {
+			panic(pathEnd{"assume infeasible (domain)"})
+		}
+		if exact {
+			in.setModel(in.modelWith(c.SV.Name, uint64(wT)))
+			in.addPC(c)
+			return
+		}
 	}
 	r, m := in.check(c)
 	switch r {
